@@ -54,8 +54,8 @@ func init() {
 	reg("C17", ruleConditionalTargetAssignmentsHaveElse, ruleTemporaryBatchHasCapacity, ruleEmittedReadersOverwrite, ruleBatchReadReportsCounter, ruleEmptyBatchGuard, ruleStepFraming, ruleFallbackBatchTruncates)
 	reg("C15", ruleSchemaTextExact, ruleSchemaListsAndDistinguishes, ruleDefinitionsKeyedByIdentity, ruleNoTestOfUnsetField, ruleStateMachineSchemaCheck, ruleMarshalCoverage, ruleSchemaCanonical, rulePrunes(schemaFiles, "V5", 2), ruleRewriterDescends(schemaFiles, "V8", 2), rulePreviousSchemasPositional)
 	reg("C03", ruleUnionTagDecision, ruleEnumDefaultBaseIsInt32, ruleUnionIndexSkipsNull, ruleEmittedSymbols, rulePlan, ruleJsonKinds, ruleTrivialRecordTrait, ruleJsonNamesAreModelNames, ruleCppEnumUnderlyingType)
-	reg("C08", ruleAborts(ndjsonCommonFiles, "P4j", 1), ruleDefinitionSwitchesResolveAliases, ruleAliasNameOnlyForTheAliasedUnion, ruleUnionDtypesBeforeTheirUsers, ruleEmittedLambdasCapture, ruleContextNamespaceThreaded, ruleEmptyDimensionListRejected, ruleNoContradictoryShapeTests, ruleGeneralizeUnderlying, ruleOptionalDeref(backendFiles, "NP1", 20), ruleDocstringQuotePadding, ruleEmittedSymbols, ruleSwitchDefaults(backendFiles, "P4", 25), ruleReservedTables, ruleIdentifierHelpers, ruleDependenciesFirst, ruleOptionGating, ruleUniquenessVsMangling)
-	reg("C19", ruleEveryPatternBranchEmitsTheCaseExpression, ruleShadowedVariableIsRead, ruleFoldKeepsResult, ruleArithmeticOnNumbersOnly, ruleGeneralizeUnderlying, ruleTypingSymmetric, ruleCommonTypeMap, ruleEmitterSiblings, ruleParenthesisation, ruleOperatorTokens, rulePromotionNotBypassed, ruleConversionAlwaysExplicit, ruleMatlabConversionClass, ruleSizeFunctionTokens)
+	reg("C08", ruleResolvedDefinitionSwitchesResolveAliases, ruleAborts(ndjsonCommonFiles, "P4j", 1), ruleDefinitionSwitchesResolveAliases, ruleAliasNameOnlyForTheAliasedUnion, ruleUnionDtypesBeforeTheirUsers, ruleEmittedLambdasCapture, ruleContextNamespaceThreaded, ruleEmptyDimensionListRejected, ruleNoContradictoryShapeTests, ruleGeneralizeUnderlying, ruleOptionalDeref(backendFiles, "NP1", 20), ruleDocstringQuotePadding, ruleEmittedSymbols, ruleSwitchDefaults(backendFiles, "P4", 25), ruleReservedTables, ruleIdentifierHelpers, ruleDependenciesFirst, ruleOptionGating, ruleUniquenessVsMangling)
+	reg("C19", ruleResolvedDefinitionSwitchesResolveAliases, ruleEveryPatternBranchEmitsTheCaseExpression, ruleShadowedVariableIsRead, ruleFoldKeepsResult, ruleArithmeticOnNumbersOnly, ruleGeneralizeUnderlying, ruleTypingSymmetric, ruleCommonTypeMap, ruleEmitterSiblings, ruleParenthesisation, ruleOperatorTokens, rulePromotionNotBypassed, ruleConversionAlwaysExplicit, ruleMatlabConversionClass, ruleSizeFunctionTokens)
 	reg("C13", ruleExpressionScalarTags, ruleModelDirectoryReadRecursively, ruleShorthandArrayWithoutDimensions, ruleDecodeLoopLeavesOnError, rulePlan, ruleAliasTable, ruleFilesAreCombined, ruleSpellingErased, ruleShorthandTwins, ruleDocCommentSuffix, ruleTypeTags, ruleDimensionItemSpellings, ruleSchemaCanonical, rulePrunes(topoSortFiles, "V5", 2))
 	reg("C07", ruleStateCounterIsWide, ruleExitClosesThroughStateCheck, ruleStateMachine, ruleNoReturnBeforeStateGuard)
 	reg("C02", ruleConditionalTargetAssignmentsHaveElse, ruleAborts(ndjsonCommonFiles, "P4j", 1), ruleEmittedFlagsNamesOnlyWhenComplete, ruleEmittedReadersOverwrite, ruleJsonKinds, ruleUnionTagDecision, ruleKindTests, ruleOptionalFieldSymmetry, ruleJsonNamesAreModelNames)
